@@ -11,7 +11,7 @@ use crate::human_encoding::{Error, ErrorSet, Position, WitnessOrHole};
 use crate::jet::Jet;
 use crate::value::Word;
 use crate::{node, types};
-use crate::{BitIter, FailEntropy};
+use crate::{BitIter, Cmr, FailEntropy};
 
 /// A single non-empty line of a program, of the form x = y :: t
 ///
@@ -61,7 +61,7 @@ pub enum ExprInner {
 #[derive(Debug, PartialEq, Eq, Clone, Hash)]
 pub enum AstCmr {
     Expr(Arc<Expression>),
-    Literal,
+    Literal(Cmr),
 }
 
 /// A type, as represented in the AST
@@ -593,9 +593,11 @@ fn parse_cmr<J: Jet + 'static>(p: &mut Parser) -> Result<AstCmr, ErrorSet> {
         return Ok(AstCmr::Expr(Arc::new(expr)));
     }
 
-    if let Some(Token::CmrLiteral(_)) = p.peek() {
+    if let Some(Token::CmrLiteral(ref raw)) = p.peek() {
+        // The lexer only accepts `#` followed by exactly 64 hex digits.
+        let cmr = raw[1..].parse::<Cmr>().expect("64 hex digits");
         p.advance();
-        return Ok(AstCmr::Literal);
+        return Ok(AstCmr::Literal(cmr));
     }
 
     Err(ErrorSet::single(
